@@ -82,7 +82,8 @@ std::map<IndexCombination4,std::vector<ComplexType> > TwoParticleGFContainer::co
     for (size_t p=0; p<comm.size(); p++) {
         int color = int (1.0*p / color_size);
         proc_colors[p] = color;
-        color_roots[color]=p;
+        // the first rank of a colour is rank 0 of the split communicator, i.e. the root of the reduction in TwoParticleGF::compute
+        if (!color_roots.count(color)) color_roots[color]=p;
     }
     for (size_t i=0; i<ncomponents; i++) {
         int color = i*ncolors/ncomponents;
